@@ -4,6 +4,7 @@ package main
 // /verif runner with -overlay; never copied into the repository).
 
 import (
+	"encoding/base64"
 	"fmt"
 	"math/rand"
 	"os"
@@ -110,7 +111,14 @@ func ovlResult(t *testing.T, prop, stage, rule string) *vr.Result {
 }
 
 var _ = fmt.Sprint
+var base64URL = base64.URLEncoding
 
 func lib_NewDir(cfg string) (interface{ Check() error }, error) {
 	return libNewDirFromConfig(cfg)
+}
+
+func b64(b []byte) string { return base64URL.EncodeToString(b) }
+func unb64(s string) []byte {
+	b, _ := base64URL.DecodeString(s)
+	return b
 }
